@@ -14,6 +14,7 @@ mod handshake;
 mod framing;
 mod pid;
 mod elixir;
+mod serde_dom;
 
 #[global_allocator]
 static GLOBAL: alloc::Counting = alloc::Counting;
@@ -31,6 +32,7 @@ fn main() {
         "framing" => framing::run_case,
         "pid" => pid::run_case,
         "elixir" => elixir::run_case,
+        "serde" => serde_dom::run_case,
         _ => {
             eprintln!("unknown domain {domain}");
             std::process::exit(2);
